@@ -12,6 +12,7 @@ package PKGNAME
 // while the native replay uses the real statements.
 
 import (
+	"errors"
 	"bytes"
 	dbsql "database/sql"
 	"io"
@@ -71,6 +72,23 @@ func (s *verifStore) GetPart(ctx contextT, tx database.Tx, id partstore.PartId) 
 func (s *verifStore) GetPartIds(ctx contextT, tx database.Tx) ([]partstore.PartId, error) {
 	return append([]partstore.PartId(nil), s.ids...), nil
 }
+// verifTxFreeStore: a store that deletes outside the transaction (as the
+// filesystem and remote stores do) and whose deletion of one part keeps failing
+type verifTxFreeStore struct {
+	*verifStore
+	failFor *partstore.PartId
+}
+
+func (s verifTxFreeStore) Capabilities() partstore.Capabilities {
+	return partstore.Capabilities(partstore.CapabilityTxFreeDeletePart)
+}
+func (s verifTxFreeStore) DeletePart(ctx contextT, tx database.Tx, id partstore.PartId) error {
+	if s.failFor != nil && s.failFor.Equal(id) {
+		return errors.New("verif: the store cannot delete this part")
+	}
+	return s.verifStore.DeletePart(ctx, tx, id)
+}
+
 func (s *verifStore) DeletePart(ctx contextT, tx database.Tx, id partstore.PartId) error {
 	for i := range s.ids {
 		if s.ids[i].Equal(id) {
@@ -172,14 +190,29 @@ func verifExec(tx database.Tx, q string, args ...any) {
 func VerifC09Sweep() {
 	db := verifNewDB()
 	store, cold := &verifStore{}, &verifStore{}
-	stores, err := partstore.NewNamedPartStores(store, map[string]partstore.PartStore{"cold": cold}, map[string]string{"GLACIER": "cold"})
+	// the cold store deletes outside the transaction; optionally it cannot delete its first orphan
+	stuck := verifPartID(7200, 4)
+	var coldStore partstore.PartStore = cold
+	txFree := verifBool("cold-store-deletes-tx-free")
+	undeletable := false
+	if txFree {
+		ts := verifTxFreeStore{verifStore: cold}
+		if verifBool("one-part-cannot-be-deleted") {
+			undeletable = true
+			ts.failFor = &stuck
+			cold.ids = append(cold.ids, stuck) // listed first
+		}
+		coldStore = ts
+	}
+	stores, err := partstore.NewNamedPartStores(store, map[string]partstore.PartStore{"cold": coldStore}, map[string]string{"GLACIER": "cold"})
 	verifMust(err)
 	reg, err := sqliteRegistry.NewRepository()
 	verifMust(err)
 	dd, err := sqliteDedup.NewRepository()
 	verifMust(err)
 	registry, dedup := &verifRegistry{reg}, &verifDedup{dd}
-	c, err := New(db, &verifMeta{}, stores, registry, dedup)
+	// grace window and collection interval differ: only the grace window decides what is old enough
+	c, err := New(db, &verifMeta{}, stores, registry, dedup, 30*time.Minute, 24*time.Hour)
 	verifMust(err)
 	g := c.(*partGC)
 
@@ -190,7 +223,7 @@ func VerifC09Sweep() {
 	}
 	p, other := verifPartID(age, 1), verifPartID(7200, 2)
 	coldOrphan := verifPartID(7200, 3)
-	verifIDs = []partstore.PartId{p, other, coldOrphan}
+	verifIDs = []partstore.PartId{p, other, coldOrphan, stuck}
 	cold.ids = append(cold.ids, coldOrphan)
 	inStore := verifBool("in-store")
 	refs := verifPick("parts-rows", 0, 2)
@@ -240,6 +273,10 @@ func VerifC09Sweep() {
 	}))
 	verifAssert(!store.has(other), "an unreferenced part older than the grace window survived a GC run")
 	verifAssert(!cold.has(coldOrphan), "an unreferenced old part in a non-default store survived a GC run")
+	if undeletable {
+		verifCover("undeletable-part")
+		verifAssert(cold.has(stuck), "harness: the undeletable part disappeared")
+	}
 	switch {
 	case refs > 0:
 		verifCover("referenced")
